@@ -90,7 +90,7 @@ pub struct SubResult {
 pub struct Sub {
 	pub name: &'static str,
 	pub run: Box<dyn Fn(&RunCfg) -> SubResult + Send + Sync>,
-	pub replay: Box<dyn Fn(&Value) -> Result<(), String> + Send + Sync>,
+	pub replay: Box<dyn Fn(&Value) -> Result<Vec<String>, String> + Send + Sync>,
 }
 
 thread_local! {
@@ -191,12 +191,12 @@ fn record(shared: &Shared, case_json: impl FnOnce() -> Value, info: &CaseInfo) {
 
 pub type TestFn<V> = Arc<dyn Fn(&V, &mut CaseInfo) -> Result<(), String> + Send + Sync>;
 
-fn replay_fn<V: DeserializeOwned + 'static>(test: TestFn<V>) -> Box<dyn Fn(&Value) -> Result<(), String> + Send + Sync> {
+fn replay_fn<V: DeserializeOwned + 'static>(test: TestFn<V>) -> Box<dyn Fn(&Value) -> Result<Vec<String>, String> + Send + Sync> {
 	Box::new(move |j: &Value| {
 		let v: V = serde_json::from_value(j.clone()).map_err(|e| format!("replay file does not fit this check: {e}"))?;
 		let mut info = CaseInfo::default();
 		match no_panic(|| test(&v, &mut info)) {
-			Ok(r) => r,
+			Ok(r) => r.map(|()| info.classes),
 			Err(p) => Err(p),
 		}
 	})
@@ -526,5 +526,13 @@ pub fn replay_property(def: &PropertyDef, path: &str) -> Result<(), String> {
 		.iter()
 		.find(|s| s.name == sub_name)
 		.ok_or_else(|| format!("property {} has no sub-check '{sub_name}' in this variant", def.id))?;
-	(sub.replay)(&doc["case"])
+	let classes = (sub.replay)(&doc["case"])?;
+	for c in classes {
+		if let Some(class) = c.strip_prefix("known:") {
+			if let Some(line) = crate::findings::known_line(class) {
+				println!("{line}");
+			}
+		}
+	}
+	Ok(())
 }
